@@ -1482,7 +1482,9 @@ class Enumerator:
         """Resolved exception class names a handler catches."""
         if h.type is None:
             return ['builtin:BaseException']
-        ts = h.type.elts if isinstance(h.type, ast.Tuple) else [h.type]
+        from .util import handler_type_exprs
+        ts = handler_type_exprs(self.prog, self._stack[-1].module, h,
+                                self._stack[-1].cls)
         out = []
         for t in ts:
             r = self.prog.resolve(self._stack[-1].module, t)
